@@ -4,7 +4,13 @@
    F node        -> fire h r s    (the timeout the harness delivered: the pending one)
    R node        -> the node was (re)started: a new ticker
    M t:w ...     -> median <t>   (cstate.MedianTime of a committed block's LastCommit: present
-                                  signatures as timestamp:power, against MedianModel.median_time) *)
+                                  signatures as timestamp:power, against MedianModel.median_time)
+   T node H R S trig h r s ce ip cp -> "-> H' R' S' trig'"   (one handleTimeout call of a real node in state
+                                  (H, R, S, TriggeredTimeoutPrecommit) with timeout (h, r, s); ce/ip =
+                                  IsCreateEmptyBlocks / CreateEmptyBlocksInterval > 0, cp = isProposalComplete():
+                                  StepModel.handle_timeout)
+   TO p|v|c base delta round -> "= ns"   (ConsensusConfig.Propose/Prevote/Precommit(round): StepModel.timeout_dur)
+   W ce interval -> "= 0|1"      (ConsensusConfig.WaitForTxs(): StepModel.wait_for_txs) *)
 open Conv
 
 let () =
@@ -35,5 +41,18 @@ let () =
         print_endline (match median_time present with
             | Some t -> "median " ^ string_of_z t
             | None -> "median none")
+      | ["T"; _; h; r; s; trig; th; tr; ts; ce; ip; cp] ->
+        let c = { create_empty = (ce = "1"); interval_pos = (ip = "1"); skip_commit = false } in
+        let nd = node_of (n_of_string h) (n_of_string r) (n_of_string s) (trig = "1") in
+        let t = { ti_h = n_of_string th; ti_r = n_of_string tr; ti_s = n_of_string ts } in
+        let nd' = handle_timeout c nd t (cp = "1") in
+        Printf.printf "-> %s %s %s %d\n" (string_of_n nd'.nH) (string_of_n nd'.nR) (string_of_n nd'.nS)
+          (if nd'.nTrig then 1 else 0)
+      | ["TO"; _; base; delta; round] ->
+        Printf.printf "= %s\n" (string_of_z (timeout_dur (z_of_string base) (z_of_string delta) (z_of_string round)))
+      | ["W"; ce; iv] ->
+        let pos = (match z_of_string iv with Zpos _ -> true | _ -> false) in
+        let c = { create_empty = (ce = "1"); interval_pos = pos; skip_commit = false } in
+        Printf.printf "= %d\n" (if wait_for_txs c then 1 else 0)
       | l -> failwith ("bad line: " ^ String.concat " " l))
     lines
